@@ -151,6 +151,8 @@ def mutants_at(t, p):
             out.append(("attribute changed", ("tag", ns, name, sorted(rest + [(a, b, v + "!")]), kids)))
             a2 = "w" if a != "w" else ""
             out.append(("attribute re-namespaced", ("tag", ns, name, sorted(rest + [(a2, b, v)]), kids)))
+            if ns and a != ns and (ns, b) not in {(x, y) for x, y, _ in rest}:
+                out.append(("attribute moved into the element's namespace", ("tag", ns, name, sorted(rest + [(ns, b, v)]), kids)))
         for i in range(len(kids) + 1):
             for f in FRESH:
                 what = {"text": "text added", "comment": "comment added", "pi": "PI added", "tag": "element added"}[f[0]]
@@ -267,8 +269,28 @@ def xml_prefixed(t, declared=()):
     return "<%s%s%s>%s</%s>" % (q, decl, out_attrs, inner, q) if kids else "<%s%s%s/>" % (q, decl, out_attrs)
 
 
-def from_xml(t):
-    return Document(xml_prefixed(t)).root if t[0] == "tag" else build(t)
+def xml_default_and_prefix(t, default=""):
+    """XML text in which an element's namespace is bound to the default namespace AND to a prefix on that element;
+    attributes in a namespace are written with the prefix, attributes without namespace plain"""
+    k = t[0]
+    if k != "tag":
+        return xml_prefixed(t)
+    ns, name, attrs, kids = t[1], t[2], t[3], t[4]
+    decl = ""
+    if ns != default:
+        decl += ' xmlns="%s"' % ns
+    for n in sorted({ns} | {a for a, _, _ in attrs}):
+        if n:
+            decl += ' xmlns:%s="%s"' % (PREFIX[n], n)
+    out_attrs = "".join(' %s="%s"' % ((PREFIX[a] + ":" + b) if a else b, impl.esc_attr(v)) for a, b, v in attrs)
+    inner = "".join(xml_default_and_prefix(c, ns) for c in kids)
+    return "<%s%s%s>%s</%s>" % (name, decl, out_attrs, inner, name) if kids else "<%s%s%s/>" % (name, decl, out_attrs)
+
+
+def from_xml(t, style="prefixed"):
+    if t[0] != "tag":
+        return build(t)
+    return Document(xml_prefixed(t) if style == "prefixed" else xml_default_and_prefix(t)).root
 
 
 def make_pair(case):
@@ -280,6 +302,9 @@ def make_pair(case):
             return a, a.clone(deep=True)
         if route == "xml-reparse":
             return a, (Document(str(a)).root if isinstance(a, TagNode) else from_xml(case["b"]))
+        if route == "xml-mixed":
+            # b binds the elements' namespaces to the default namespace and to a prefix at once
+            return a, from_xml(case["b"], "default+prefix")
         return a, from_xml(case["b"])
     a = build(case["a"])
     if route == "clone":
@@ -486,6 +511,9 @@ def run(ctx, args):
         for kind, p, m in ms:
             if m[0] == "tag" and xml_ok(m):
                 cases.append({"a": t, "b": m, "kind": kind, "path": p, "route": "xml"})
+                if kind.startswith("attribute"):
+                    cases.append({"a": t, "b": m, "kind": kind + " (b: default+prefix binding)", "path": p, "route": "xml-mixed"})
+        cases.append({"a": t, "b": t, "kind": "no mutation (b: default+prefix binding)", "route": "xml-mixed"})
     # (2) random trees: unmutated copy, clone, re-parse, and a sample of their single-point mutants (each kind)
     n_trees = 150 if quick else 2500
     per_tree = 4 if quick else 8
